@@ -5,29 +5,65 @@ for n in ["default", "stable", "fastp"]:
     _CFG["rips_" + n] = {"quick": 600, "thorough": 40000}
 for n in ["full", "fastcof"]:
     _CFG["inc_" + n] = {"quick": 1500, "thorough": 100000}
+# option sets never instantiated before: no stored values (minimal), integral Filtration_value
+_CFG["exp_minimal"] = {"quick": 500, "thorough": 30000}
+_CFG["rips_minimal"] = {"quick": 300, "thorough": 20000}
+_CFG["exp_intfull"] = {"quick": 500, "thorough": 30000}
+_CFG["inc_intfull"] = {"quick": 800, "thorough": 50000}
+_CFG["rips_intfull"] = {"quick": 300, "thorough": 20000}
+_SRC = ["c04_main.cpp", "c04_default.cpp", "c04_stable.cpp", "c04_fastp.cpp", "c04_full.cpp", "c04_fastcof.cpp", "c04_minimal.cpp", "c04_integral.cpp"]
+# low-count configs: 10-40 vertices, recursive clique enumeration as the model
+_MID = {"mid_" + n: {"quick": 64, "thorough": 4000} for n in ["full", "fastcof", "default", "stable"]}
+_FLOORS = {"graph.clique_number_4plus": 500, "blockers.blocked_and_higher_survives": 300, "cmp.added_simplices": 10000,
+           "cmp.incremental_after_monotonisation": 500, "hist.one_shot_prefix_has_triangles_or_more": 150, "cmp.rips_matrix": 350, "cmp.rips_points": 350, "_distinct_nontrivial": 2000,
+           # input classes added after the audit (about half of what seed 1 measures)
+           "graph.empty": 230, "cmp.dimension_of_empty_complex": 250, "cmp.equal_to_model_tree": 11000,
+           "hist.removal_lowered_dimension": 350, "op.insert_under_stale_bound": 200, "cmp.dimension_under_stale_bound": 250,
+           "op.insert_edge_as_flag_swapped": 7000, "cmp.added_simplices_appended_tail": 10000,
+           "blockers.customised_value_kept": 300, "cmp.blocker_calls": 30000,
+           "graph.extreme_labels": 600, "graph.insert_simplex_skeleton": 1200, "graph.undirected": 400, "graph.bidirectional": 400, "graph.reversed_edges": 1200, "graph.duplicate_edges": 900,
+           "arg.extreme_max_dim": 400, "mid.graphs": 120, "mid.incremental": 50, "mid.clique_number_4plus": 80,
+           "cmp.rips_proximity_graph": 200, "cmp.rips_square_matrix": 200, "cmp.rips_second_create_complex": 300}
 SPEC = {
     "property": "C04",
-    "rule": "random weighted graphs on 1-9 vertices (complete / sparse / medium / all-equal weights, 5-value grid so ties dominate, isolated vertices, "
-            "sparse labels for the incremental routes), max_dim 0-6 (or -1). exp_*: insert_graph+expansion, expansion_with_blockers(never) and "
-            "expansion_with_blockers(P) for deterministic predicates P {hash of the vertex word mod k, contains vertex v, size >= s, always} are compared "
-            "(simplex set AND values) with the brute-force clique complex / its largest P-free subcomplex; inc_*: insert_edge_as_flag in filtration order "
-            "or in any vertices-first order followed by make_filtration_non_decreasing, with added_simplices compared with the model difference after "
-            "every call and the result compared with the one-shot route; rips_*: Rips_complex from integer points and from lower-triangular distance "
-            "matrices, thresholds on / between / below / above the distances. non-trivial = distinct graph with clique number >= 3",
-    "assumptions": ["blocker predicates are pure functions of the vertex set and never block vertices or edges", "only the filtered simplex set is compared (not dimension())",
-                    "insert_edge_as_flag is never called on an existing edge/vertex and an edge always after its vertices (documented preconditions)",
-                    "oracle/flag.h brute-force enumeration is the trusted model"],
-    "units": [{"name": "flag", "src": ["c04_main.cpp", "c04_default.cpp", "c04_stable.cpp", "c04_fastp.cpp", "c04_full.cpp", "c04_fastcof.cpp"],
-               "variant": "asan", "configs": _CFG, "chunk": 50},
-              {"name": "flag_g", "src": ["c04_main.cpp", "c04_default.cpp", "c04_stable.cpp", "c04_fastp.cpp", "c04_full.cpp", "c04_fastcof.cpp"],
-               "variant": "gasan", "tiers": ["thorough"], "configs": {k: {"thorough": 5000} for k in _CFG}, "chunk": 50}],
-    "floors": {"quick": {"graph.clique_number_4plus": 500, "blockers.blocked_and_higher_survives": 300, "cmp.added_simplices": 10000,
-                         "cmp.incremental_after_monotonisation": 500, "hist.one_shot_prefix_has_triangles_or_more": 300, "cmp.rips_matrix": 400, "cmp.rips_points": 400, "_distinct_nontrivial": 2000}},
+    "rule": "random weighted graphs on 0-9 vertices (the empty graph included; complete / sparse / medium / all-equal weights, 5-value grid so ties dominate, isolated vertices; "
+            "labels contiguous, sparse, or sparse with INT_MAX / INT_MIN), max_dim 0-6 and {INT_MAX, INT_MIN, -1, -2, 100}. The 1-skeleton is handed over through insert_graph with a "
+            "directedS (Proximity_graph) / undirectedS / bidirectionalS boost graph (random edge order and orientation, occasional duplicate edges of equal value) or vertex by vertex "
+            "and edge by edge through insert_simplex (the only way for sparse labels). exp_*: skeleton+expansion, expansion_with_blockers(never) and expansion_with_blockers(P) for "
+            "deterministic predicates P {hash of the vertex word mod k, contains vertex v, size >= s, always}, P optionally also customising the value with assign_filtration (a dyadic "
+            "bump of the word), are compared (simplex set AND values) with the brute-force clique complex / the dimension-by-dimension model of the blocked expansion (candidate = all "
+            "facets kept, value seen by the oracle = largest customised value of the facets, at most one call per simplex); every tree is also asked for dimension(), "
+            "upper_bound_dimension(), num_simplices() and compared with operator== to a tree built simplex by simplex from the same complex, and the trees of the routes with each other. "
+            "inc_*: insert_edge_as_flag(u,v) or (v,u) in filtration order or in any vertices-first order (make_filtration_non_decreasing where the order was broken), added_simplices "
+            "emptied or NOT emptied between the calls (the appended tail is compared with the model difference after every call); in half of the cases removal steps in between (the star "
+            "of a random edge or vertex removed top-down through remove_maximal_simplex, or prune_above_filtration(t) after monotonisation), removed items are partly inserted again; "
+            "dimension() is queried after half of the steps only, so that a bound left stale by a removal survives to the next insertion; dim_max = 0 or < -1 means vertices only. "
+            "rips_*: Rips_complex from integer points (Euclidean; an exact L1 functor for the integral option set), lower-triangular and full square distance matrices, "
+            "compute_proximity_graph + insert_graph + expansion, 0-9 points, thresholds on / between / below / above the distances, a second create_complex on the same object. "
+            "mid_* (low count): G(n,p) on 10-40 vertices with at most 5000 cliques, routes 1, 2, 5 and the incremental route (created simplices derived from the link of the new edge), "
+            "a recursive clique enumeration as the model. Option sets: default, stable handles, fast_persistence (contiguous vertices: labels 0..n-1 only), full_featured, fast cofaces, "
+            "minimal (no stored value: sets only) and full_featured with Filtration_value = int. non-trivial = distinct graph with clique number >= 3",
+    "assumptions": ["blocker predicates are pure functions of the vertex set and never block vertices or edges; a customising oracle only raises the value, by a function of the vertex set",
+                    "a negative max_dim given to a one-shot route (expansion, expansion_with_blockers, Rips create_complex) is expected to leave the inserted graph as it is (expansion adds nothing "
+                    "below dimension 2 and never removes); for insert_edge_as_flag -1 is the documented 'no limit' and every other dim_max < 1 is expected to give the vertices only",
+                    "insert_edge_as_flag is never called on an existing edge/vertex and an edge always after its vertices (documented preconditions); the label -1 (null_vertex) is never used; "
+                    "option sets with contiguous_vertices only get the labels 0..n-1, inserted in increasing order",
+                    "prune_above_filtration is only called when the stored values are the intended ones (in filtration order, or after make_filtration_non_decreasing)",
+                    "duplicate edges of a boost graph carry equal values (the documentation leaves the choice of the representative open)",
+                    "with the integral option set the Rips distance functor returns exact integers (L1 distance on integer points); Rips_complex<double> into the minimal tree is compared as a set",
+                    "oracle/flag.h brute-force enumeration is the trusted model for n <= 9 (cross-checked on 1/8 of the cases with the recursive enumeration of c04_exec.h, which is the model for 10-40 vertices)"],
+    "units": [{"name": "flag", "src": _SRC, "variant": "asan", "configs": _CFG, "chunk": 50},
+              {"name": "flag_mid", "src": ["c04_main.cpp", "c04_mid_a.cpp", "c04_mid_b.cpp"], "variant": "asan", "configs": _MID, "chunk": 3},
+              {"name": "flag_g", "src": _SRC, "variant": "gasan", "tiers": ["thorough"], "configs": {k: {"thorough": 5000} for k in _CFG}, "chunk": 50}],
+    "floors": {"quick": _FLOORS},
     "manifest": {
-        "text": "Runtime monitor under ASan+UBSan: every construction route of the flag complex (one-shot, blocker-driven, incremental in two orders, Rips builders) "
-                "is run on thousands of random small weighted graphs and compared, simplex set and values, with a brute-force clique enumeration; "
-                "added_simplices is compared with the model difference after every incremental call. Sampled graphs; held-on-what-was-observed.",
-        "note": "trusted: oracle/flag.h (2^n subset enumeration, n <= 9); documented preconditions of insert_edge_as_flag respected",
+        "text": "Runtime monitor under ASan+UBSan: every construction route of the flag complex (one-shot, blocker-driven with and without customised values, incremental in two orders "
+                "with removals in between, Rips builders) is run on thousands of random small weighted graphs (the empty graph, extreme labels and extreme max_dim included; every "
+                "admissible boost graph flavour) and a few hundred graphs of 10-40 vertices, and compared, simplex set and values, with a brute-force clique enumeration; "
+                "added_simplices is compared with the model difference after every incremental call; every resulting tree also has to report the right dimension() / num_simplices() and "
+                "to compare equal (operator==) to a tree of the same complex. Sampled graphs; held-on-what-was-observed.",
+        "note": "trusted: oracle/flag.h (2^n subset enumeration, n <= 9) and the recursive clique enumeration in c04_exec.h (n <= 40); documented preconditions of insert_edge_as_flag, "
+                "insert_graph and contiguous_vertices respected",
         "technique": "runtime monitoring: randomized inputs + brute-force reference oracle, route-vs-route comparison, AddressSanitizer/UBSan",
     },
 }
